@@ -569,6 +569,17 @@ def f_affine(tier="quick", seed=0):
                           "mapping": {"partitioning": {"O": {"Q": ["uniform_shape(2)"], "W": ["follow(Q)"]}}, "loop-order": {"O": lo}},
                           "extents": ext, "tags": {"family": "affine", "template": "shared-access", "follow": True, "levels": 1,
                                                    "aligned": Q % 2 == 0, "psize": 2, "outer_parts": "single"}})
+    # occupancy partitioning of the convolution's output rank led by one of two input tensors that share the access
+    for leader in ("J", "I"):
+        for dirs, lab, lv in ((["uniform_occupancy(%s.2)" % leader], "o%s2" % leader, 1),
+                              (["uniform_shape(4)", "uniform_occupancy(%s.2)" % leader], "u4o%s2" % leader, 2)):
+            lo = ["Q%d" % i for i in range(lv, 0, -1)] + ["W0", "Q0"]
+            specs.append({"name": "affine/shared-access/Q4S2/%s/lo=%s" % (lab, ",".join(lo)), "decl": dsh,
+                          "exprs": ["O[q] = I[q + s] * J[q + s] * F[s]"],
+                          "mapping": {"partitioning": {"O": {"Q": dirs, "W": ["follow(Q)"]}}, "loop-order": {"O": lo}},
+                          "extents": {"Q": 4, "S": 2, "W": 5},
+                          "tags": {"family": "affine", "template": "shared-access-occ", "follow": True, "levels": lv,
+                                   "outer_parts": "single", "aligned": True, "psize": 2}})
     # subsampling and a second operand indexed by the output rank
     for M in ((3,) if tier == "quick" else (2, 3, 4)):
         ext = {"M": M, "K": 2 * (M - 1) + 1}
